@@ -176,6 +176,14 @@ class FnCtx:
             r = z3.unsat
             solver_name = 'z3-%s(standalone)' % z3.get_version_string()
             dt = time.time() - t0
+        if r == z3.unknown:
+            # quantified goal: skolemise it and instantiate the quantified assumptions at the
+            # skolem constants by hand (the solver's own instantiation is seed dependent)
+            if self.retry_instantiated(st, goal):
+                ok = True
+                r = z3.unsat
+                solver_name = 'z3-%s(incremental, instantiated at skolems)' % z3.get_version_string()
+                dt = time.time() - t0
         if ok:
             self.results.append(Result(name, kind, self.fnkey, 'discharged', dt, solver_name, pos, text))
         else:
@@ -736,6 +744,44 @@ class FnCtx:
                 out.append({'block': b['idx'], 'comment': b.get('comment'), 'line': min(lines) if lines else None})
         return out
 
+    def retry_instantiated(self, st, goal):
+        g = goal
+        hyps = []
+        # peel implications/conjunctions down to universally quantified conjuncts
+        while z3.is_app(g) and g.decl().kind() == z3.Z3_OP_IMPLIES:
+            hyps.append(g.arg(0))
+            g = g.arg(1)
+        conj = list(g.children()) if (z3.is_app(g) and g.decl().kind() == z3.Z3_OP_AND) else [g]
+        sks = []
+        newconj = []
+        for c in conj:
+            if z3.is_quantifier(c) and c.is_forall():
+                vs = [z3.Const(fresh_name('sk_' + c.var_name(i)), c.var_sort(i)) for i in range(c.num_vars())]
+                body = z3.substitute_vars(c.body(), *reversed(vs))
+                sks += [v for v in vs if v.sort() == I]
+                newconj.append(body)
+            else:
+                newconj.append(c)
+        if not sks:
+            return False
+        insts = []
+        for a in st.assumptions:
+            for q in top_foralls(a):
+                if q.num_vars() != 1 or q.var_sort(0) != I:
+                    continue
+                for sk in sks:
+                    insts.append(z3.substitute_vars(q.body(), sk))
+        self.solver.push()
+        try:
+            for h in hyps:
+                self.solver.main.add(h)
+            for i_ in insts[:400]:
+                self.solver.main.add(i_)
+            self.solver.main.add(z3.Not(z3.And(newconj)))
+            return self.solver.check() == z3.unsat
+        finally:
+            self.solver.pop()
+
     def valid_standalone(self, goal, ms=1500):
         """validity without the path's assumptions (pure store-chain reasoning)"""
         s = z3.Solver()
@@ -782,6 +828,20 @@ class FnCtx:
             self.stale(name, str(ex))
             return
         self.prove(st, g, name, 'invariant', None, c.text, assume_after=True)
+
+
+def top_foralls(a):
+    """universally quantified formulas among the top-level conjuncts of a"""
+    out = []
+    todo = [a]
+    while todo:
+        x = todo.pop()
+        if z3.is_quantifier(x):
+            if x.is_forall():
+                out.append(x)
+        elif z3.is_app(x) and x.decl().kind() == z3.Z3_OP_AND:
+            todo.extend(x.children())
+    return out
 
 
 class RestartFunction(Exception):
